@@ -369,6 +369,22 @@ def logical_not(a): return Arr([not x for x in _arr(a).data], 'bool_')          
 
 FUNCS = {f.__name__: f for f in (zeros, ones, full, empty, array, asarray, arange, where, nonzero, flatnonzero, argwhere, count_nonzero,
                                  array_equal, concatenate, logical_and, logical_or, logical_not)}
+def fromiter(it, dtype, count=-1):
+    vals = list(it)
+    if count is not None and count >= 0:
+        if len(vals) < count:
+            raise FoldRaise('ValueError', 'iterator too short')
+        vals = vals[:count]
+    return Arr(vals, as_dtype(dtype))
+
+
+def fromiter_(it, dtype=None, count=-1, **k):
+    if dtype is None:
+        raise FoldRaise('TypeError', "fromiter() missing required argument 'dtype'")
+    return fromiter(it, dtype, count)
+
+
+FUNCS['fromiter'] = fromiter_
 FUNCS.update({
     'sum': lambda a: _arr(a).sum(), 'any': lambda a: _arr(a).any(), 'all': lambda a: _arr(a).all(),
     'max': lambda a: _arr(a).max(), 'min': lambda a: _arr(a).min(), 'amax': lambda a: _arr(a).max(), 'amin': lambda a: _arr(a).min(),
